@@ -75,7 +75,13 @@ class StatePreparationChannel(raw_types.Gate):
             name: the name of the gate for printing in circuit diagrams
             kwargs: other keyword arguments, ignored
         """
-        return cls(target_state=np.array(target_state), name=name)
+        state = np.array(target_state, dtype=np.complex128)
+        channel = cls(target_state=state, name=name)
+        # A written state is already normalized; dividing by its norm again may change the
+        # last bits, so that the value read back would not equal the value written.
+        if np.allclose(channel._state, state, rtol=0, atol=1e-12):
+            channel._state = state
+        return channel
 
     def _num_qubits_(self) -> int:
         return self._num_qubits
